@@ -1,13 +1,11 @@
 import FlVerif.Base.PyList
-import FlVerif.Base.X
+import FlVerif.Op.PyExt
 import FlVerif.Op.Fld
 
 /-! # Externals of the translated FLD grid code (`Op.increment`, `FldExporter.write_from_scope`)
 
 What the grid loop reads of an input variable: whether it belongs to `active_variables`, its `minimum`, its `drange`
 and the last element of its `value` (`np.take(variable.value, -1)`). -/
-
-instance {α : Type} : Inhabited (X α) := ⟨.nan⟩
 
 namespace Py.Fld
 
